@@ -12,6 +12,10 @@ pub struct PreProcessor<T: TokenStream> {
     token_stream: T,
     macros: HashSet<EcoString>,
     error: Option<EcoString>,
+    /// a token (and its start) read while looking for a macro name and handed back
+    peeked: Option<(TokenKind, usize)>,
+    /// number of conditionals that still wait for their #endif
+    open_conditionals: usize,
 }
 
 impl<T: TokenStream> TokenStream for PreProcessor<T> {
@@ -20,7 +24,10 @@ impl<T: TokenStream> TokenStream for PreProcessor<T> {
     }
 
     fn cursor(&self) -> usize {
-        self.token_stream.cursor()
+        match self.peeked {
+            Some((_, start)) => start,
+            None => self.token_stream.cursor(),
+        }
     }
 
     fn text(&self, range: Range<usize>) -> &str {
@@ -42,6 +49,8 @@ impl<T: TokenStream> PreProcessor<T> {
             token_stream,
             macros: HashSet::new(),
             error: None,
+            peeked: None,
+            open_conditionals: 0,
         }
     }
 
@@ -54,13 +63,24 @@ impl<T: TokenStream> PreProcessor<T> {
     }
 
     fn next_token(&mut self) -> TokenKind {
-        match self.token_stream.eat() {
+        match self.eat_raw() {
             T![#ifdef] => self.process_if(IfKind::Defined),
             T![#ifndef] => self.process_if(IfKind::NotDefined),
             T![#else] => self.process_else(),
             T![#endif] => self.process_endif(),
             T![#define] => self.process_define(),
+            TokenKind::Eof if self.open_conditionals > 0 => {
+                self.open_conditionals = 0;
+                self.error("reached EOF without matching #endif")
+            }
             kind => kind,
+        }
+    }
+
+    fn eat_raw(&mut self) -> TokenKind {
+        match self.peeked.take() {
+            Some((kind, _)) => kind,
+            None => self.token_stream.eat(),
         }
     }
 
@@ -70,20 +90,21 @@ impl<T: TokenStream> PreProcessor<T> {
     }
 
     fn process_if(&mut self, if_kind: IfKind) -> TokenKind {
-        match self.next_not_trivia() {
-            (start, TokenKind::Id) => {
+        match self.macro_name() {
+            Some(start) => {
                 let end = self.token_stream.cursor();
                 let macro_name = self.token_stream.text(start..end);
                 let macro_defined = self.macros.contains(macro_name);
 
+                self.open_conditionals += 1;
                 if let (IfKind::Defined, false) | (IfKind::NotDefined, true) =
                     (if_kind, macro_defined)
                 {
-                    self.eat_until_else_or_endif();
+                    return self.eat_until_else_or_endif();
                 }
                 TokenKind::PreProcessor
             }
-            _ => match if_kind {
+            None => match if_kind {
                 IfKind::Defined => self.error("expected macro name after #ifdef"),
                 IfKind::NotDefined => self.error("expected macro name after #ifndef"),
             },
@@ -91,37 +112,46 @@ impl<T: TokenStream> PreProcessor<T> {
     }
 
     fn process_else(&mut self) -> TokenKind {
-        self.eat_until_else_or_endif();
-        TokenKind::PreProcessor
+        self.eat_until_else_or_endif()
     }
 
     fn process_endif(&mut self) -> TokenKind {
+        self.open_conditionals = self.open_conditionals.saturating_sub(1);
         TokenKind::PreProcessor
     }
 
     fn process_define(&mut self) -> TokenKind {
-        match self.next_not_trivia() {
-            (start, TokenKind::Id) => {
+        match self.macro_name() {
+            Some(start) => {
                 let end = self.token_stream.cursor();
                 let macro_name = self.token_stream.text(start..end);
                 self.define_macro(macro_name.into());
                 TokenKind::PreProcessor
             }
-            _ => self.error("expected macro name after #define"),
+            None => self.error("expected macro name after #define"),
         }
     }
 
-    fn next_not_trivia(&mut self) -> (usize, TokenKind) {
+    /// Eats the macro name of a directive and returns where it starts.
+    /// The name must follow on the line of the directive; any other token is handed back.
+    fn macro_name(&mut self) -> Option<usize> {
         loop {
             let start = self.token_stream.cursor();
             let kind = self.token_stream.eat();
-            if !kind.is_trivia() {
-                return (start, kind);
+            let end = self.token_stream.cursor();
+            match kind {
+                TokenKind::Id => return Some(start),
+                TokenKind::Whitespace | TokenKind::BlockComment
+                    if !self.token_stream.text(start..end).contains(['\r', '\n']) => {}
+                _ => {
+                    self.peeked = Some((kind, start));
+                    return None;
+                }
             }
         }
     }
 
-    fn eat_until_else_or_endif(&mut self) {
+    fn eat_until_else_or_endif(&mut self) -> TokenKind {
         let mut depth = 1;
         loop {
             match self.token_stream.eat() {
@@ -131,12 +161,15 @@ impl<T: TokenStream> PreProcessor<T> {
                 T![#endif] if depth >= 2 => {
                     depth -= 1;
                 }
-                T![#else] | T![#endif] if depth == 1 => {
-                    break;
+                T![#else] if depth == 1 => {
+                    return TokenKind::PreProcessor;
+                }
+                T![#endif] if depth == 1 => {
+                    return self.process_endif();
                 }
                 TokenKind::Eof => {
-                    self.error("reached EOF without matching #endif");
-                    break;
+                    self.open_conditionals = 0;
+                    return self.error("reached EOF without matching #endif");
                 }
                 _ => {}
             }
